@@ -54,6 +54,9 @@ type FaultPlan struct {
 	Kinds    map[string]bool
 	// Filter restricts injection to some paths/ops (nil = all).
 	Filter func(op, path string) bool
+	// Rate, if set, overrides PerMille per operation (faults are biased towards operations
+	// that create in-flight state, e.g. opening a blob during a restore).
+	Rate func(op, path, kind string) int
 	// Touched is called for every injected fault (op, path, kind).
 	Touched func(op, path, kind string)
 }
@@ -131,7 +134,11 @@ func injectNow(op, path, kind string) bool {
 	if pl.Filter != nil && !pl.Filter(op, path) {
 		return false
 	}
-	if s.C.ChooseBiased(2, pl.PerMille, "fault:"+kind) == 0 {
+	rate := pl.PerMille
+	if pl.Rate != nil {
+		rate = pl.Rate(op, path, kind)
+	}
+	if s.C.ChooseBiased(2, rate, "fault:"+kind) == 0 {
 		return false
 	}
 	pl.Budget--
